@@ -14,7 +14,9 @@
  *   b64d <targsize> <hex>  rfbBase64PtoN(src, separate target, targsize); src = bytes + NUL
  *   b64i <targsize> <hex>  rfbBase64PtoN(src, src, targsize)   (in place, as the decoder does)
  *   sha1 <hex>             hash_sha1
- *   hs <hex>               webSocketsCheck() on a socketpair fed with the request bytes
+ *   hs <hex>               webSocketsCheck() on a socketpair fed with the request bytes, then EOF
+ *   hst <hex>              the same, but the peer stays silent after the bytes (the reads time out)
+ *   sched item i = read() fails with EINTR
  *   sess <tcp|wsbin|wsb64|wsrawbin|wsrawb64> <hexC> <frames> <sched>      (application-driven rfbProcessEvents loop)
  *   sesst ... same arguments, against the THREADED server (rfbRunEventLoop(screen,-1,TRUE), clientInput thread);
  *                          the client then stays quiet and the harness waits (bounded) for the callback log
@@ -73,6 +75,7 @@ static int emu_read(void *ctxp, char *dst, size_t len) {
   if (e.kind == 1) { snprintf(t, sizeof t, "%lld:%llu:a", off, (unsigned long long)len); rq_add(t); errno = EAGAIN; return -1; }
   if (e.kind == 2) { snprintf(t, sizeof t, "%lld:%llu:e", off, (unsigned long long)len); rq_add(t); return 0; }
   if (e.kind == 3) { snprintf(t, sizeof t, "%lld:%llu:x", off, (unsigned long long)len); rq_add(t); errno = ECONNRESET; return -1; }
+  if (e.kind == 4) { snprintf(t, sizeof t, "%lld:%llu:i", off, (unsigned long long)len); rq_add(t); errno = EINTR; return -1; }
   avail = g_slen - g_spos;
   nret = (size_t)e.k; if (nret > avail) nret = avail; if (nret > len) nret = len;
   if (nret == 0) {
@@ -104,7 +107,7 @@ static void puthex(const unsigned char *p, size_t n) {
 static const char *errname(int e) {
   static char t[32];
   if (e == EAGAIN) return "EAGAIN"; if (e == EPROTO) return "EPROTO"; if (e == ECONNRESET) return "ECONNRESET";
-  if (e == EIO) return "EIO"; if (e == EFAULT) return "EFAULT";
+  if (e == EIO) return "EIO"; if (e == EFAULT) return "EFAULT"; if (e == EINTR) return "EINTR";
   snprintf(t, sizeof t, "E%d", e); return t;
 }
 
@@ -354,7 +357,7 @@ int main(void) {
       char *tok = strtok(arg, " ");
       while (tok) {
         ev_t e; e.k = 0;
-        if (tok[0] == 'a') e.kind = 1; else if (tok[0] == 'e') e.kind = 2; else if (tok[0] == 'x') e.kind = 3;
+        if (tok[0] == 'a') e.kind = 1; else if (tok[0] == 'e') e.kind = 2; else if (tok[0] == 'x') e.kind = 3; else if (tok[0] == 'i') e.kind = 4;
         else { e.kind = 0; e.k = atol(tok); }
         if (g_nev + 1 > g_evcap) { g_evcap = g_evcap * 2 + 64; g_ev = (ev_t *)realloc(g_ev, g_evcap * sizeof(ev_t)); }
         g_ev[g_nev++] = e;
@@ -420,7 +423,8 @@ int main(void) {
       r = hash_sha1(dig, b, n);
       printf("sha1 ok=%d out=", r); puthex(dig, 20); printf("\n"); free(b);
     }
-    else if (!strcmp(line, "hs")) {
+    else if (!strcmp(line, "hs") || !strcmp(line, "hst")) {
+      int tmo = line[2] == 't';   /* hst: the peer stays silent after the request (100 ms time-outs) instead of closing */
       unsigned char *b, *o; size_t n, m; int sv[2], ok, b64 = -1;
       rfbClientPtr cl;
       socketpair(AF_UNIX, SOCK_STREAM, 0, sv); big_bufs(sv);
@@ -432,11 +436,13 @@ int main(void) {
       fcntl(sv[0], F_SETFL, fcntl(sv[0], F_GETFL) | O_NONBLOCK);
       n = unhex(arg, &b);
       if (n) { ssize_t w = write(sv[1], b, n); (void)w; }
-      shutdown(sv[1], SHUT_WR);
+      if (!tmo) shutdown(sv[1], SHUT_WR);
+      rfbMaxClientWait = 300;
+      alarm(8);
       ok = webSocketsCheck(cl) ? 1 : 0;
       if (cl->wsctx) b64 = ((ws_ctx_t *)cl->wsctx)->base64 ? 1 : 0;
       m = drain(sv[1], &o);
-      printf("hs ok=%d ws=%d b64=%d path=", ok, cl->wsctx ? 1 : 0, b64);
+      printf("%s ok=%d ws=%d b64=%d path=", line, ok, cl->wsctx ? 1 : 0, b64);
       if (cl->wspath) puthex((unsigned char *)cl->wspath, strlen(cl->wspath)); else putchar('~');
       printf(" resp="); puthex(o, m); printf("\n");
       free(o); free(b); if (cl->wsctx) free(cl->wsctx); if (cl->wspath) free(cl->wspath); free(cl); close(sv[0]); close(sv[1]);
